@@ -93,3 +93,156 @@ theorem valid_after_foreign_install {db : DB} {ts : List Tr} {t : Tr} (hk : t.ke
   valid_congr (find_applyAll_ne hk)
 
 end Sop.C04
+
+namespace Sop.C04
+open Sop.Merge
+
+/-! ## the repaired code: every writer commits, and the store ends as the union
+
+`Setting`: `n` writers, the initial store `db0`, and for each writer the tracked actions `spec i` it
+brought to `Commit`.  `Setting.OK` is the property's premise, as decidable conditions on the input:
+each writer's keys are pairwise different, different writers' keys are disjoint, and every action is
+valid for `db0` (adds of absent keys, get/update/remove of the very item, at the version read).
+
+`Disj S s0 ∧ Prog S.n s0` says what the start state is: every writer has called `Commit` (its actions
+tracked, its lock records published, its pages snapshotted, `Count − count0` set), nobody has
+installed, `n ≤ phase1CommitMaxRetryCount`.  `start3_ok` shows the state built by the model's own
+`begin` for three concrete writers is such a state.
+
+The schedule `sched` and the adversary's page choices inside it are arbitrary: ANY interleaving, ANY
+page partition (so including splits and merges of the same page).  Time is not modelled: the theorem
+is about schedules in which no writer reaches `maxTime` or its context deadline; "the schedule was
+fair and long enough" is the hypothesis `allDone` of `C04_union`. -/
+
+/-- **C04, safety half.** In every reachable state no writer has failed: the merge replay never took
+an error exit, no writer met a lock-record conflict (its own records included), no writer ran out of
+retries (each conflict round is paid for by another writer's install, `run_prog`), and every writer
+that finished did so by installing. -/
+theorem C04_disjoint_commit (S : Setting) (hS : S.OK) (s0 : State) (hd : Disj S s0) (hp : Prog S.n s0)
+    (sched : List (Nat × List (Nat × PAct))) (hb : schedBelow S.n sched) :
+    ∀ i, i < S.n → ∀ r, ((run true s0 sched).ws i).pc = .done r → r = .ok := by
+  intro i hi r hr
+  obtain ⟨hd', hp'⟩ := run_disj hS sched hd hp hb
+  rcases hd'.results i hi r hr with h | h
+  · exact h.1
+  · subst h; exact absurd hr (hp'.no_retries i)
+
+/-- **Progress measure.** A writer that is still in its commit loop has gone through at most as many
+conflict rounds as there were installs, and fewer than `n`; so the retry budget is never the reason
+a commit ends (this half needs no disjointness and holds for the pinned merge as well). -/
+theorem C04_conflict_rounds_bounded (fixed : Bool) (n : Nat) (s0 : State) (hp : Prog n s0)
+    (sched : List (Nat × List (Nat × PAct))) (hb : schedBelow n sched) (i : Nat) (hi : i < n)
+    (hact : ∀ r, ((run fixed s0 sched).ws i).pc ≠ .done r) :
+    ((run fixed s0 sched).ws i).retry ≤ (run fixed s0 sched).epoch ∧ (run fixed s0 sched).epoch < n ∧
+    n ≤ (run fixed s0 sched).maxRetry := by
+  have h := run_prog (fixed := fixed) sched hp hb
+  refine ⟨Nat.le_trans (h.retry_le i) (h.fetch_le i), ?_, h.budget⟩
+  rw [h.epoch_eq]
+  exact cnt_lt_of_false hi (not_installed_of_active h hact)
+
+/-- every writer has finished: what a fair, long enough schedule reaches before any time limit -/
+def allDone (n : Nat) (s : State) : Prop := ∀ i, i < n → ∃ r, (s.ws i).pc = .done r
+
+/-- **C04, union half.** When all writers have finished, all of them committed and the store is the
+initial store with every writer's changes applied: each key written by a writer carries that writer's
+change (`eff`), every other key is as it was, and keys are still unique. -/
+theorem C04_union (S : Setting) (hS : S.OK) (s0 : State) (hd : Disj S s0) (hp : Prog S.n s0)
+    (sched : List (Nat × List (Nat × PAct))) (hb : schedBelow S.n sched)
+    (hall : allDone S.n (run true s0 sched)) :
+    let s := run true s0 sched
+    (∀ i, i < S.n → (s.ws i).pc = .done .ok) ∧
+    (∀ i, i < S.n → ∀ t ∈ S.spec i, valAt s.db t.key = eff t (valAt S.db0 t.key)) ∧
+    (∀ k, (∀ i, i < S.n → k ∉ (S.spec i).map (·.key)) → find s.db k = find S.db0 k) ∧
+    UniqueKeys s.db := by
+  obtain ⟨hd', hp'⟩ := run_disj hS sched hd hp hb
+  have hinst : ∀ i, i < S.n → ((run true s0 sched).ws i).installed = true := by
+    intro i hi
+    obtain ⟨r, hr⟩ := hall i hi
+    rcases hd'.results i hi r hr with h | h
+    · exact h.2
+    · subst h; exact absurd hr (hp'.no_retries i)
+  refine ⟨?_, fun i hi => hd'.written i hi (hinst i hi), hd'.foreign, hd'.uniq⟩
+  intro i hi
+  obtain ⟨r, hr⟩ := hall i hi
+  rw [hr, C04_disjoint_commit S hS s0 hd hp sched hb i hi r hr]
+
+end Sop.C04
+
+namespace Sop.C04
+open Sop.Merge
+
+/-! ## the hypotheses are satisfiable: the start state built by `begin` for three concrete writers -/
+
+def S3 : Setting := { n := 3, db0 := [it 10, it 20], spec := fun i => if i = 0 then [addTr 1] else if i = 1 then [addTr 2] else if i = 2 then [addTr 3] else [] }
+
+theorem S3_ok : S3.OK := by
+  refine ⟨?_, ?_, ?_⟩
+  · intro i hi
+    match i, hi with
+    | 0, _ => decide
+    | 1, _ => decide
+    | 2, _ => decide
+  · intro i j hi hj hne
+    match i, hi, j, hj with
+    | 0, _, 0, _ => exact absurd rfl hne
+    | 0, _, 1, _ => decide
+    | 0, _, 2, _ => decide
+    | 1, _, 0, _ => decide
+    | 1, _, 1, _ => exact absurd rfl hne
+    | 1, _, 2, _ => decide
+    | 2, _, 0, _ => decide
+    | 2, _, 1, _ => decide
+    | 2, _, 2, _ => exact absurd rfl hne
+  · intro i hi
+    match i, hi with
+    | 0, _ => decide
+    | 1, _ => decide
+    | 2, _ => decide
+
+theorem start3_ws (i : Nat) : (start3.ws i).pc = .atLock ∧ (start3.ws i).installed = false ∧ (start3.ws i).fetchEpoch = 0 ∧
+    (start3.ws i).retry = 0 ∧ validate start3 (start3.ws i).pages = true := by
+  match i with
+  | 0 => decide
+  | 1 => decide
+  | 2 => decide
+  | k + 3 =>
+    have : start3.ws (k + 3) = {} := by
+      simp [start3, Merge.begin, State.setW, lockTracked, lockSet, lockConflict, addTr]
+    rw [this]
+    decide
+
+theorem start3_prog : Prog 3 start3 := prog_of_fresh (by decide) (by decide) start3_ws
+
+theorem start3_disj : Disj S3 start3 := by
+  refine ⟨?_, ?_, ?_, ?_, ?_, ?_, ?_, ?_, ?_⟩
+  · intro i hi; match i, hi with
+    | 0, _ => decide
+    | 1, _ => decide
+    | 2, _ => decide
+  · intro i hi; match i, hi with
+    | 0, _ => decide
+    | 1, _ => decide
+    | 2, _ => decide
+  · intro i hi; match i, hi with
+    | 0, _ => decide
+    | 1, _ => decide
+    | 2, _ => decide
+  · intro i hi r hr; rw [(start3_ws i).1] at hr; cases hr
+  · intro i hi; match i, hi with
+    | 0, _ => decide
+    | 1, _ => decide
+    | 2, _ => decide
+  · intro l hl
+    have : start3.itemLocks = [] := by decide
+    rw [this] at hl; cases hl
+  · unfold UniqueKeys; decide
+  · intro i hi hin; rw [(start3_ws i).2.1] at hin; cases hin
+  · intro k _; rfl
+
+/-- the general theorems instantiated: for EVERY schedule over the three writers and every page choice,
+nobody fails -/
+example (sched : List (Nat × List (Nat × PAct))) (hb : schedBelow 3 sched) (i : Nat) (hi : i < 3) (r : Res)
+    (hr : ((run true start3 sched).ws i).pc = .done r) : r = .ok :=
+  C04_disjoint_commit S3 S3_ok start3 start3_disj start3_prog sched hb i hi r hr
+
+end Sop.C04
